@@ -4,7 +4,7 @@ import vf, gen, spec
 
 ID = 'C17'
 FLAVORS = ['default']
-RULE = ('ARR lines: binary array results of element sizes 1, 2, 4, 8 with lengths 0..64 (quick) / 0..300 (thorough), random element values, NORMAL and SWAPPED format; '
+RULE = ('ARR lines: binary array results of element sizes 1, 2, 4, 8 with lengths 0..140 (quick: 0..11, around 64 and 128, and sampled) / 0..300 (thorough), random element values, NORMAL and SWAPPED format; '
         'scenarios streaming a block through header/data calls in every split incl. zero-length pieces, data beyond the announced length, a following item to observe the item count; '
         'header-only calls for every power of ten up to 10^9 and 2^32-1. Non-trivial: blocks of at least two bytes or split into at least two data calls; distinct = distinct lines.')
 MODELLED = 'produceResultArrayBinary, SCPI_Swap16/32/64, SCPI_ResultArbitraryBlockHeader/Data/Block are modelled in BufModel.array_binary and ParserModel.result_hdr/result_data; the host is little-endian (the big-endian branch is proved on the model only)'
@@ -17,10 +17,10 @@ def be(v, size):
 
 def streams(tier, rng):
     cases, info = [], {}
-    maxn = 64 if tier == 'quick' else 300
+    maxn = 140 if tier == 'quick' else 300
     for size in (1, 2, 4, 8):
         for fmt in (1, 2):
-            ns = list(range(0, 12)) + [rng.randint(12, maxn) for _ in range(12)] + [maxn]
+            ns = list(range(0, 12)) + [63, 64, 65, 66, 127, 128, 129] + [rng.randint(12, maxn) for _ in range(8)] + [maxn]
             if tier != 'quick':
                 ns = list(range(0, maxn + 1))
             for n in ns:
